@@ -20,6 +20,7 @@ func genAll() {
 	guarded("HtmlVocab.lean", genHtmlVocab)
 	guarded("DetectTable.lean", genDetectTable)
 	guarded("FilterTable.lean", genFilterTable)
+	guarded("GlyphNames.lean", genGlyphNames)
 }
 
 // leanStrBytes renders a Go string as a Lean list of its bytes (the models use List Nat).
@@ -554,4 +555,82 @@ func leanSwitchBytes(name string, cs []swCase) string {
 	}
 	b.WriteString("]\n")
 	return b.String()
+}
+
+// genGlyphNames writes the glyph-name table of package font (the map /Differences names are
+// looked up in) as Gen/GlyphNames.lean. The map is located by content - the map[string]rune
+// literal of package font that has the keys "quotedblleft" and "Euro" - not by its identifier.
+func genGlyphNames() {
+	dir := filepath.Join(repo, "font")
+	ents, err := os.ReadDir(dir)
+	if err != nil {
+		fatal("font package: %v", err)
+	}
+	type entry struct {
+		name string
+		r    int64
+	}
+	var found [][]entry
+	for _, e := range ents {
+		n := e.Name()
+		if !strings.HasSuffix(n, ".go") || strings.HasSuffix(n, "_test.go") || strings.HasPrefix(n, "verif_export") {
+			continue
+		}
+		f := parseFile(filepath.Join("font", n))
+		ast.Inspect(f, func(nd ast.Node) bool {
+			cl, ok := nd.(*ast.CompositeLit)
+			if !ok {
+				return true
+			}
+			mt, ok := cl.Type.(*ast.MapType)
+			if !ok || src(mt.Key) != "string" {
+				return true
+			}
+			var es []entry
+			keys := map[string]bool{}
+			for _, el := range cl.Elts {
+				kv, ok := el.(*ast.KeyValueExpr)
+				if !ok {
+					return true
+				}
+				k, ok := constString(kv.Key)
+				if !ok {
+					return true
+				}
+				v, ok := evalInt(kv.Value)
+				if !ok {
+					bl, isLit := kv.Value.(*ast.BasicLit)
+					if !isLit || bl.Kind != token.CHAR {
+						return true
+					}
+					c, _, _, err := strconv.UnquoteChar(bl.Value[1:len(bl.Value)-1], '\'')
+					if err != nil {
+						return true
+					}
+					v = int64(c)
+				}
+				keys[k] = true
+				es = append(es, entry{k, v})
+			}
+			if keys["quotedblleft"] && keys["Euro"] {
+				found = append(found, es)
+			}
+			return true
+		})
+	}
+	if len(found) != 1 {
+		fatal("glyph-name map: %d candidate literals in package font", len(found))
+	}
+	var b strings.Builder
+	b.WriteString(header + "namespace Tabula.Gen.GlyphNames\n\n")
+	b.WriteString("/-- the entries of the glyph-name map literal of package font: name (bytes) and rune, in source order -/\n")
+	b.WriteString("def table : List (List Nat × Nat) := [")
+	for i, e := range found[0] {
+		if i > 0 {
+			b.WriteString(",")
+		}
+		fmt.Fprintf(&b, "\n  (%s, %d) /- %s -/", leanStrBytes(e.name), e.r, strings.ReplaceAll(e.name, "-/", "- /"))
+	}
+	b.WriteString("]\n\nend Tabula.Gen.GlyphNames\n")
+	write("GlyphNames.lean", b.String())
 }
